@@ -146,7 +146,9 @@ func scaleSource(shape string, n int) string {
 			"def a { p = 1 }\nbind a -> struct\n",
 			"def a \"n\" { y = 1; q = \"s\" }\nbind a:all -> slice\n",
 			"def a { def total_emb { p = 2 } }\nbind a -> struct\n",
-		}[n%13])
+			"def a { d = 8080 }\nbind a -> struct\n",
+			"def a \"n\" { l = \"debug\"; y = 2 }\nbind a:all -> slice\n",
+		}[n%15])
 	case "div-int-zero":
 		sb.WriteString("print 1/0\n")
 	case "div-float-zero":
@@ -186,8 +188,13 @@ type totalTarget = struct {
 	S         struct{ X int }
 	G         *struct{ B int }
 	Y         int
+	D         TotalPort // named scalar types: the kind of a value matches, the type does not
+	L         TotalLevel
 	*TotalEmb // an embedded pointer, nil: its promoted fields P and Q are found by name but cannot be reached
 }
+
+type TotalPort int
+type TotalLevel string
 
 // TotalEmb is embedded by pointer in the C06 target
 type TotalEmb struct {
